@@ -11,25 +11,25 @@ import (
 )
 
 type rxItem struct {
-	lit     string   // literal text (when class == nil)
-	class   []rune   // rune ranges lo,hi,lo,hi...
-	min     int      // 0 or 1
-	max     int      // -1 unbounded, 1 single
-	cap     int      // capture index (0 = not captured)
+	lit     string // literal text (when class == nil)
+	class   []rune // rune ranges lo,hi,lo,hi...
+	min     int    // 0 or 1
+	max     int    // -1 unbounded, 1 single
+	cap     int    // capture index (0 = not captured)
 	capName string
 }
 
 type regexInfo struct {
-	name     string
-	pkg      string
-	pattern  string
-	id       int
-	items    []rxItem
-	anchorL  bool
-	anchorR  bool
-	ngroups  int
-	names    []string // index -> name
-	subsetOK bool
+	name      string
+	pkg       string
+	pattern   string
+	id        int
+	items     []rxItem
+	anchorL   bool
+	anchorR   bool
+	ngroups   int
+	names     []string // index -> name
+	subsetOK  bool
 	subsetWhy string
 }
 
